@@ -47,11 +47,18 @@ static void print_words(const unsigned long *w, unsigned n)
   for (i = 0; i < n; i++) printf("%s%lx", i ? "," : "", w[i]);
 }
 
+/* bitmaps above HV_BIG words (indexes around INT_MAX, hundreds of MB) are not rendered:
+ * those cases are compared on the return values only */
+#define HV_BIG 65536
 static void line(const char *ret, int h, const char *rawret)
 {
   struct hwloc_bitmap_s *s = H[h];
   unsigned n = s->ulongs_count;
   unsigned long pat = s->infinite ? ~0UL : 0UL;
+  if (n > HV_BIG) {
+    printf("R=%s S=%d:big | c=%u a=%u raw=big%s\n", ret, s->infinite ? 1 : 0, s->ulongs_count, s->ulongs_allocated, rawret);
+    return;
+  }
   while (n > 0 && s->ulongs[n-1] == pat) n--;
   printf("R=%s S=%d:", ret, s->infinite ? 1 : 0);
   print_words(s->ulongs, n);
@@ -68,6 +75,7 @@ static void state2(char *dst, size_t len, int h)
   struct hwloc_bitmap_s *s = H[h];
   unsigned n = s->ulongs_count, i; size_t o;
   unsigned long pat = s->infinite ? ~0UL : 0UL;
+  if (n > HV_BIG) { snprintf(dst, len, " T=%d:big", s->infinite ? 1 : 0); return; }
   while (n > 0 && s->ulongs[n-1] == pat) n--;
   o = snprintf(dst, len, " T=%d:", s->infinite ? 1 : 0);
   if (!n) snprintf(dst + o, len - o, "-");
